@@ -25,7 +25,7 @@ type vfReq struct {
 	Name   string `json:",omitempty"` // EXTUNKNOWN name
 }
 
-var vfProgPaths = []string{"file", "dir", "dir/a", "dir/b", "empty", "lfile", "ldir", "ldangling", "new1", "new2", "dir/new", "missing/x", "dir/sub", "dir/sub/x", "new3"}
+var vfProgPaths = []string{"file", "dir", "dir/a", "dir/b", "empty", "lfile", "ldir", "ldangling", "new1", "new2", "dir/new", "missing/x", "dir/sub", "dir/sub/x", "new3", "big"}
 
 var vfReqKinds = []string{"OPEN", "OPEN", "OPENDIR", "CLOSE", "CLOSE", "READ", "READ", "READ", "WRITE", "WRITE", "FSTAT", "FSETSTAT", "READDIR", "LSTAT", "STAT",
 	"SETSTAT", "REMOVE", "MKDIR", "RMDIR", "REALPATH", "RENAME", "READLINK", "SYMLINK", "STATVFS", "POSIXRENAME", "HARDLINK", "EXTUNKNOWN"}
@@ -258,8 +258,13 @@ func firstFrame(stack string) string {
 	return ""
 }
 
+// vfBigFile is longer than an allocator page / the largest frame (256 KiB), so that reads around that
+// boundary return data (seed C18-c).
+var vfBigFile = vfPRFBytes(9, 0, 270000)
+
 func vfHTree(h *vfH) {
 	h.addFile("/file", vfPRFBytes(1, 0, 300))
+	h.addFile("/big", append([]byte{}, vfBigFile...))
 	h.addDir("/dir")
 	h.addFile("/dir/a", []byte("a"))
 	h.addFile("/dir/b", []byte("bb"))
